@@ -41,8 +41,21 @@ func load(dir string) *pkgInfo {
 		if err != nil {
 			fatal(err)
 		}
-		desugarFile(f) // code_desugar.go: syntactic normalisation (local constants, element pointers, counting loops)
 		p.files[n] = f
+	}
+	// code_desugar.go: syntactic normalisation (local constants, element pointers, counting loops, fallthrough,
+	// tuple assignments, local copies of slice fields); the struct declarations of the whole package are
+	// collected first (the last rule needs the declared type of a field)
+	collectPkgStructs(p.files)
+	{
+		var names []string
+		for n := range p.files {
+			names = append(names, n)
+		}
+		sort.Strings(names)
+		for _, n := range names {
+			desugarFile(p.files[n])
+		}
 	}
 	// package level constants (several passes for dependencies)
 	for pass := 0; pass < 4; pass++ {
